@@ -55,9 +55,10 @@ fn gen_my(rng: &mut Rng, out: &mut Vec<String>, i: usize) {
     }
     let nops = 1 + rng.below(5);
     let mut ops = vec![];
+    let band = !simple && m > w && rng.chance(1, 2);
     for _ in 0..nops {
-        let k = mu::threshold(rng, m, simple);
-        let mut t = mu::text(rng, &alpha, &p, k);
+        let k = if band { rng.below(4) } else { mu::threshold(rng, m, simple) };
+        let mut t = if band { mu::band_text(rng, &alpha, &p, k, w) } else { mu::text(rng, &alpha, &p, k) };
         sprinkle(rng, &mut t, &extra);
         match rng.below(6) {
             0 => ops.push(format!("d:{}", hex(&t))),
